@@ -32,7 +32,7 @@ typedef struct {
 	int clock;                    // 0 uptime 1 wall 2 monotonic
 	dispatch_source_t ds;
 	int fd_r, fd_w;               // READ sources: pipe ends
-	_Atomic int invocations, in_handler, cancel_handler_runs, activated, cancelled_by_harness, released;
+	_Atomic int invocations, in_handler, cancel_handler_runs, activated, activate_done, cancelled_by_harness, released;
 	_Atomic uint64_t merged_sum, merged_or, delivered_sum, delivered_or, last_delivered;
 	_Atomic int sentinel_seen;
 	_Atomic long bytes_written, bytes_read;
@@ -149,7 +149,7 @@ void exec_op(op_t *op) {
 	case K_CANCEL: logev(EV_CALL, op->id, (int32_t)op->a, op->kind); dispatch_source_cancel(s->ds); logev(EV_RET, op->id, (int32_t)op->a, 0); break;
 	case K_CANCELWAIT:
 		// legal only without a cancel handler, not from the handler, not while suspended/inactive: the generator guarantees the first two, the tokens the third
-		if (!atomic_load(&s->activated)) { logev(EV_SKIP, op->id, (int32_t)op->a, 1); break; }
+		if (!atomic_load(&s->activate_done)) { logev(EV_SKIP, op->id, (int32_t)op->a, 1); break; }      // dispatch_activate must have RETURNED
 		logev(EV_CALL, op->id, (int32_t)op->a, op->kind); dispatch_source_cancel_and_wait(s->ds); logev(EV_RET, op->id, (int32_t)op->a, 0); break;
 	case K_SUSPEND:
 		logev(EV_CALL, op->id, (int32_t)op->b, op->kind); dispatch_suspend(s->ds); logev(EV_RET, op->id, (int32_t)op->b, 0);
@@ -161,7 +161,7 @@ void exec_op(op_t *op) {
 		break;
 	case K_ACTIVATE: {
 		int e = 0;
-		if (atomic_compare_exchange_strong(&s->activated, &e, 1)) { logev(EV_CALL, op->id, (int32_t)op->a, op->kind); dispatch_activate(s->ds); logev(EV_RET, op->id, (int32_t)op->a, 0); }
+		if (atomic_compare_exchange_strong(&s->activated, &e, 1)) { logev(EV_CALL, op->id, (int32_t)op->a, op->kind); dispatch_activate(s->ds); atomic_store(&s->activate_done, 1); logev(EV_RET, op->id, (int32_t)op->a, 0); }
 		else logev(EV_SKIP, op->id, (int32_t)op->a, 0);
 		break; }
 	case K_SETTIMER:
@@ -198,7 +198,7 @@ static void janitor_discharge_one(void) {
 	for (int t = 0; t <= ntok_max; t++) if (atomic_load(&TOK[t].state) == TK_CREATED && tok_claim(t)) {
 		logev(EV_JCALL, -1, t, K_RESUME); dispatch_resume(SRC[TOK[t].src].ds); logev(EV_JRET, -1, t, K_RESUME); return; }
 	for (int i = 0; i < MAXSRC; i++) if (SRC[i].used) { int e = 0; if (atomic_compare_exchange_strong(&SRC[i].activated, &e, 1)) {
-		logev(EV_JCALL, -1, i, K_ACTIVATE); dispatch_activate(SRC[i].ds); logev(EV_JRET, -1, i, K_ACTIVATE); return; } }
+		logev(EV_JCALL, -1, i, K_ACTIVATE); dispatch_activate(SRC[i].ds); atomic_store(&SRC[i].activate_done, 1); logev(EV_JRET, -1, i, K_ACTIVATE); return; } }
 }
 static void *janitor(void *arg) {
 	(void)arg; my_tid = 62;
@@ -267,7 +267,7 @@ static int create_objects(void) {
 		dispatch_source_set_event_handler(s->ds, ^{ event_handler(sid); });
 		if (s->flags & 1) dispatch_source_set_cancel_handler(s->ds, ^{ cancel_handler(sid); });
 		if (s->type == T_TIMER) do_settimer(s, sid, -1000 - sid, s->a, s->b, s->c);
-		if (s->flags & 2) { atomic_store(&s->activated, 1); logev(EV_CALL, -300 - sid, sid, K_ACTIVATE); dispatch_activate(s->ds); logev(EV_RET, -300 - sid, sid, 0); }
+		if (s->flags & 2) { atomic_store(&s->activated, 1); logev(EV_CALL, -300 - sid, sid, K_ACTIVATE); dispatch_activate(s->ds); atomic_store(&s->activate_done, 1); logev(EV_RET, -300 - sid, sid, 0); }
 	}
 	return 0;
 }
@@ -290,7 +290,7 @@ static void *coordinator(void *arg) {
 	for (int i = 0; i < nthreads; i++) pthread_join(th[i], 0);
 	// discharge whatever obligations the scripts did not reach
 	for (int t = 0; t <= ntok_max; t++) if (atomic_load(&TOK[t].state) == TK_CREATED && tok_claim(t)) { logev(EV_JCALL, -1, t, K_RESUME); dispatch_resume(SRC[TOK[t].src].ds); logev(EV_JRET, -1, t, K_RESUME); }
-	for (int i = 0; i < MAXSRC; i++) if (SRC[i].used) { int e = 0; if (atomic_compare_exchange_strong(&SRC[i].activated, &e, 1)) { logev(EV_JCALL, -1, i, K_ACTIVATE); dispatch_activate(SRC[i].ds); logev(EV_JRET, -1, i, K_ACTIVATE); } }
+	for (int i = 0; i < MAXSRC; i++) if (SRC[i].used) { int e = 0; if (atomic_compare_exchange_strong(&SRC[i].activated, &e, 1)) { logev(EV_JCALL, -1, i, K_ACTIVATE); dispatch_activate(SRC[i].ds); atomic_store(&SRC[i].activate_done, 1); logev(EV_JRET, -1, i, K_ACTIVATE); } }
 	atomic_store(&all_done, 1); pthread_join(jt, 0); atomic_store(&S->janitor_pending, 0);
 	int p; while ((p = atomic_load(&pending)) > 0) fwait(&pending, p);
 	// convergence (C15): every merge made before cancellation must be delivered; a lost wake-up ends in a stuck witness here
@@ -341,6 +341,7 @@ int main(int argc, char **argv) {
 	if (shm_attach(argv[2], cap)) return 2;
 	int r = load_program(argv[1]);
 	if (r) { fprintf(stderr, "cannot load program (%d)\n", r); return 2; }
+	signal(SIGPIPE, SIG_IGN);      // peers keep writing after a cancel handler has closed the read end
 	mode_setup();
 	if (create_objects()) return 2;
 	pthread_t co; pthread_create(&co, 0, coordinator, 0);
